@@ -18,6 +18,7 @@ import (
 	"strings"
 	"sync"
 	"sync/atomic"
+	"syscall"
 	"testing"
 	"time"
 
@@ -81,6 +82,30 @@ func pick(q, th int) int {
 // hands the connection to the driver (a cancellation exactly between the two).
 var dialHook atomic.Value // func()
 
+// dialWrap, when set, wraps the connection the custom dialer hands to the driver (client-side transport
+// faults that a master cannot provoke: a write that fails).
+var dialWrap atomic.Value // func(net.Conn) net.Conn
+
+// failWriteConn fails its n-th Write (1-based) with ECONNRESET without sending anything; the writes of a
+// session are: the handshake response, the checksum statement, the dump command.
+type failWriteConn struct {
+	net.Conn
+	failAt, n int32
+}
+
+func (c *failWriteConn) Write(b []byte) (int, error) {
+	if atomic.AddInt32(&c.n, 1) == c.failAt {
+		return 0, &net.OpError{Op: "write", Net: "tcp", Err: syscall.ECONNRESET}
+	}
+	return c.Conn.Write(b)
+}
+
+// failDumpWrite arms dialWrap so that the next connection cannot send its dump command; it returns the disarm.
+func failDumpWrite() func() {
+	dialWrap.Store(func(c net.Conn) net.Conn { return &failWriteConn{Conn: c, failAt: 3} })
+	return func() { dialWrap.Store(func(c net.Conn) net.Conn { return c }) }
+}
+
 // perturbLogger is installed through the exported SetLogger.  It discards every
 // message; when a scenario arms it, it additionally delays the calling goroutine
 // at the library's log calls (a legitimate schedule perturbation: any real logger
@@ -137,6 +162,9 @@ func TestMain(m *testing.M) {
 		c, err := d.DialContext(ctx, "tcp", addr)
 		if f, ok := dialHook.Load().(func()); ok && f != nil && err == nil {
 			f()
+		}
+		if w, ok := dialWrap.Load().(func(net.Conn) net.Conn); ok && w != nil && err == nil {
+			c = w(c)
 		}
 		return c, err
 	})
